@@ -16,7 +16,7 @@ func init() {
 			"is a branch to a panic or error exit that lies on every path to a normal return, against the documented constant (evaluated from the initialisers); the square roots apply the +1 correction exactly when r² < d, in both precisions; the rounding-mode dispatch of DivIntByU64ToBigDec selects the matching division; SigFigRound does not write its argument.",
 		NotCovered:  []string{"every numeric error bound (Exp2 10^-18, LogBase2 10^-32, Pow precision, sig-fig half-unit)", "monotonicity of the square roots", "binary-search post-conditions"},
 		Assumptions: []string{"math/big.Int.Sqrt returns the floor square root"},
-		MinObl:      53,
+		MinObl:      72,
 		Run:         runC13,
 	})
 }
@@ -46,6 +46,17 @@ func runC13(c *rules.Ctx) {
 	c.InitStore("osmomath", "two", "sdkmath.LegacyMustNewDecFromStr(\"2\")", "the bound is 2")
 	c.FailsWhen(M+"PowApprox", "not(sdkmath.LegacyDec.IsPositive(originalBase))", "a non-positive base is rejected", rules.GuardOpt{})
 	c.FailsWhen(M+"PowApprox", "eq(phi(1,add(#self,1)), 150000)", "the series gives up loudly at the iteration limit", rules.GuardOpt{Conditional: true})
+	c.Let("IPART", "sdkmath.LegacyDec.TruncateDec(exp)")
+	c.CallArg(M+"Pow", "osmomath.PowApprox", 0, "base", "the series is evaluated for the given base")
+	c.CallArg(M+"Pow", "osmomath.PowApprox", 1, "sdkmath.LegacyDec.Sub(exp, {IPART})", "the series receives only the fractional part of the exponent (the integer part is an exact power)")
+	c.CallArg(M+"Pow", "osmomath.PowApprox", 2, "@osmomath.powPrecision", "…to the documented power precision")
+	c.CallArg(M+"Pow", "sdkmath.LegacyDec.Power", 1, "sdkmath.LegacyDec.TruncateInt64({IPART})", "the integer part of the exponent is raised exactly")
+	c.Returns(M+"Pow", 0, "sdkmath.LegacyDec.Power(base,_) | sdkmath.LegacyDec.MulMut(sdkmath.LegacyDec.Power(base,_), osmomath.PowApprox(base,_,_))", "the result is integer power × fractional power", "")
+	c.OnlyWhenReturn(M+"Pow", "sdkmath.LegacyDec.Power(base,_)", "sdkmath.LegacyDec.IsZero(sdkmath.LegacyDec.Sub(exp, {IPART}))", "the series is skipped only for an integral exponent")
+	// significant-figure rounding: the kept digits are rounded to nearest (half a unit at most)
+	c.CallArg(M+"SigFigRound", "sdkmath.LegacyDec.QuoIntMut", 0, "sdkmath.Int.ToLegacyDec(sdkmath.LegacyDec.RoundInt(sdkmath.LegacyDec.MulInt(_, tenToSigFig)))", "the numerator is the scaled value rounded to the nearest integer (half-even), so the result moves by at most half a unit of the last kept digit")
+	c.CallArg(M+"SigFigRound", "sdkmath.LegacyDec.QuoIntMut", 1, "sdkmath.Int.Mul(tenToSigFig, sdkmath.LegacyDec.TruncateInt(sdkmath.LegacyDec.Power(sdkmath.Int.ToLegacyDec(sdkmath.NewInt(10)), _)))", "…and is scaled back by 10^sigfig · 10^k")
+	c.HasCall(M+"SigFigRound", "sdkmath.LegacyDec.RoundInt", []string{"sdkmath.LegacyDec.MulInt(_, tenToSigFig)"}, false, "d·10^k·10^sigfig is rounded half-even to an integer", "")
 	// square roots
 	for _, v := range [][3]string{{"MonotonicSqrtMut", "sdkmath.LegacyDec", "@osmomath.tenTo18"}, {"MonotonicSqrtBigDecMut", "osmomath.BigDec", "@osmomath.tenTo36"}} {
 		fn, ty, ten := M+v[0], v[1], v[2]
@@ -77,8 +88,17 @@ func runC13(c *rules.Ctx) {
 	c.ConstValue("osmomath", "RoundDown", "2")
 	c.ConstValue("osmomath", "RoundBankers", "3")
 	// binary searches
-	for _, fn := range []string{"BinarySearch", "BinarySearchBigDec"} {
+	for _, v := range [][2]string{{"BinarySearch", "osmomath.ErrTolerance.Compare"}, {"BinarySearchBigDec", "osmomath.ErrTolerance.CompareBigDec"}} {
+		fn, cmp := v[0], v[1]
 		c.FailsWhen(M+fn, "not(lt(phi(0,add(#self,1)), maxIterations))", "non-convergence within the iteration budget is reported as an error", rules.GuardOpt{Conditional: true})
+		// the comparison is (expected = target, actual = f(estimate)); a negative result (output too large) lowers the
+		// upper bound, a positive one raises the lower bound, zero returns the estimate: the tolerance side is kept
+		c.CallArg(M+fn, cmp, 1, "targetOutput", "the tolerance comparison takes the target as the expected value")
+		c.CallArg(M+fn, cmp, 2, "dyn(f,_) | dyn(f,_)#0", "…and the image of the current estimate as the actual value")
+		c.Let("CMP", cmp+"(errTolerance,targetOutput,_)")
+		c.VarUpdatedWhen(M+fn, "upperbound", "_", "lt({CMP},0)", "the upper bound moves to the estimate only when the image is above the target (comparison < 0)")
+		c.VarUpdatedWhen(M+fn, "lowerbound", "_", "gt({CMP},0)", "the lower bound moves to the estimate only when the image is below the target (comparison > 0)")
+		c.OnlyWhenReturn(M+fn, "has(sdkmath.Int.Add(_,_)) | has(osmomath.BigDec.Add(_,_))", "not(lt({CMP},0)) & not(gt({CMP},0))", "an estimate is returned only when the comparison reports the tolerance met on the requested side")
 	}
 	// SigFigRound must not write its argument (finding F2; shared with C12's effect analysis)
 	sp := c.P.SSAPkg("osmomath")
